@@ -188,7 +188,7 @@ func ruleStateOnlyForVerifiedFrames(c *Ctx, rule string) {
 }
 
 func checkC06(c *Ctx) {
-	c.Explanation = "Decides structural necessary conditions of the week bookkeeping: (S1) state persistence — on every call path from the single-frame decoder to a store into a Handler time field the Handler travels by pointer; no local copy of a Handler (value receiver / by-value parameter / dereferenced copy) has its address handed to a function that mutates Handler fields, so no rollover update is lost; (S2) constellation separation — each converter reads and writes only the Handler fields of its own constellation; (S3) the message-type dispatch tables of the time converter and of the start-of-week lookup map {1074,1077}->GPS, {1084,1087}->Glonass, {1094,1097}->Galileo, {1124,1127}->Beidou and agree with each other (complete type domain); (S4) no Handler state is written on a path that returns a range error; (S5) the week advances only under a strict comparison (previous > current; Glonass day < previous day) and by exactly AddDate(0,0,7); (S6) the offset and limit constants have the required values (-18 s, -4 s, -3 h, 7*86400000-1, 6<<27+86400000-1, day shift 27, 24 h limit with >=), range checks use the required operators, times are week start + timestamp milliseconds, and the start-of-week display is computed after the conversion. (S8) every successful conversion replaces the remembered timestamp (day) of its constellation, unconditionally. (S9) nothing reachable from the handler constructor or the single-frame decoder reads the machine's clock (time.Now/Since/Until): the reported times depend on the start time and the frames only. (S10) the stream path hands on the single-frame decoder's message and error unchanged (rules of C01-R7), so a range error reported by the decoder is what the consumer sees."
+	c.Explanation = "Decides structural necessary conditions of the week bookkeeping: (S1) state persistence — on every call path from the single-frame decoder to a store into a Handler time field the Handler travels by pointer; no local copy of a Handler (value receiver / by-value parameter / dereferenced copy) has its address handed to a function that mutates Handler fields, so no rollover update is lost; (S2) constellation separation — each converter reads and writes only the Handler fields of its own constellation; (S3) the message-type dispatch tables of the time converter and of the start-of-week lookup map {1074,1077}->GPS, {1084,1087}->Glonass, {1094,1097}->Galileo, {1124,1127}->Beidou and agree with each other (complete type domain); (S4) no Handler state is written on a path that returns a range error; (S5) the week advances only under a strict comparison (previous > current; Glonass day < previous day) and by exactly AddDate(0,0,7); (S6) the offset and limit constants have the required values (-18 s, -4 s, -3 h, 7*86400000-1, 6<<27+86400000-1, day shift 27, 24 h limit with >=), range checks use the required operators, times are week start + timestamp milliseconds, and the start-of-week display is computed after the conversion. (S8) every successful conversion replaces the remembered timestamp (day) of its constellation, unconditionally. (S9) nothing reachable from the handler constructor or the single-frame decoder reads the machine's clock (time.Now/Since/Until): the reported times depend on the start time and the frames only. (S10) the stream path hands on the single-frame decoder's message and error unchanged (rules of C01-R7), so a range error reported by the decoder is what the consumer sees. (S11) the bit read that yields Message.Timestamp lies inside the message body: position + width <= 24 + 8*declared length follows from the guards that dominate it (linear entailment)."
 	c.NotDecided = "calendar arithmetic of time.Time; that the structural conditions are sufficient for every interleaving (numerical end-to-end equality is outside static analysis); the initial week derived from the start time (C17)."
 	P := c.P
 	H := P.Named("rtcm/handler", "Handler")
@@ -212,6 +212,10 @@ func checkC06(c *Ctx) {
 	if f := newFraming(c, "C06-S10"); f != nil {
 		conservationRules(f, "C06-S10", consOpts{returns: true, fetchO: fetchOpts{leaderOK: true, skipPairing: true}})
 	}
+	// ---- S11 the timestamp is read from the message body: at the bit read whose result becomes
+	// Message.Timestamp, position + width <= 24 + 8 * (declared message length) is entailed by the
+	// guards in force there (otherwise bits of the CRC are taken for a time, and stored as history)
+	ruleTimestampInsideBody(c, "C06-S11", getMsg)
 	// ---- S1 lost update
 	mut := paramMutators(P, H)
 	nMut := 0
@@ -1107,5 +1111,81 @@ func ruleWallClockFree(c *Ctx, rule string, roots []*ssa.Function) {
 	}
 	if n == 0 {
 		c.Fail(rule, "wall-clock-free", token.NoPos, "unresolved", "no functions reachable from the handler constructor and decoder")
+	}
+}
+
+// ruleTimestampInsideBody (C06-S11).
+func ruleTimestampInsideBody(c *Ctx, rule string, getMsg *ssa.Function) {
+	P := c.P
+	tsF := P.Field("rtcm/handler", "Message", "Timestamp")
+	if tsF == nil {
+		c.Unresolved(rule, "rtcm/handler.Message.Timestamp")
+		return
+	}
+	// the declared length: first result of the leader helper called by the decoder
+	var ml ssa.Value
+	eachInstr(getMsg, func(ins ssa.Instruction) {
+		ex, ok := ins.(*ssa.Extract)
+		if !ok || ex.Index != 0 {
+			return
+		}
+		call, ok := ex.Tuple.(*ssa.Call)
+		if !ok {
+			return
+		}
+		f := call.Call.StaticCallee()
+		if f == nil || !P.InModule(f) || f.Signature.Results().Len() != 3 {
+			return
+		}
+		if b, ok := f.Signature.Results().At(0).Type().Underlying().(*types.Basic); ok && b.Info()&types.IsInteger != 0 && ml == nil {
+			ml = ex
+		}
+	})
+	if ml == nil {
+		c.Fail(rule, "timestamp-inside-body", getMsg.Pos(), "unresolved", "the declared message length (first result of the leader helper) was not found in the decoder")
+		return
+	}
+	A := NewAff(P)
+	n := 0
+	eachInstr(getMsg, func(ins ssa.Instruction) {
+		st, ok := ins.(*ssa.Store)
+		if !ok {
+			return
+		}
+		if fv, _ := fieldOf(st.Addr); fv != tsF {
+			return
+		}
+		// the stored value derives from a bit read
+		var read *ssa.Call
+		v := st.Val
+		for i := 0; i < 4 && read == nil; i++ {
+			switch x := v.(type) {
+			case *ssa.Convert:
+				v = x.X
+			case *ssa.ChangeType:
+				v = x.X
+			case *ssa.Call:
+				if f := x.Call.StaticCallee(); f != nil && (f.Name() == "GetBitsAsUint64") && len(x.Call.Args) == 3 {
+					read = x
+				}
+				i = 4
+			default:
+				i = 4
+			}
+		}
+		n++
+		if read == nil {
+			c.Fail(rule, "timestamp-inside-body", st.Pos(), "unproven", "the value stored into Message.Timestamp is not the result of a bit read")
+			return
+		}
+		goal := LE(A.Lin(read.Call.Args[1]).Add(A.Lin(read.Call.Args[2])), A.Lin(ml).Scale(8).AddConst(24))
+		if A.Prove(read.Block(), goal) {
+			c.OK(rule, "timestamp-inside-body", read.Pos(), "position + width <= 24 + 8*length is entailed where the timestamp is read")
+		} else {
+			c.Fail(rule, "timestamp-inside-body", read.Pos(), "unproven", "the timestamp read is not confined to the message body by the guards before it ("+goal.String()+" does not follow): for a short message bits of the CRC are reported as a time and remembered as the previous timestamp")
+		}
+	})
+	if n == 0 {
+		c.Fail(rule, "timestamp-inside-body", getMsg.Pos(), "unresolved", "no store into Message.Timestamp in the decoder")
 	}
 }
